@@ -536,7 +536,7 @@ theorem step_abs {t : Store} {o : Ref} (h : Sep t o) (st : Stmt) :
               simp [rd_wr_ne this]
         · rw [Abs.info_set]; rfl
   | rebind a f =>
-    simp only [step, astep, snd_allocD, obj_allocD]
+    simp only [step, astep, snd_allocD]
     exact ⟨sep_bind_fresh h a _, abs_bind_fresh h a _⟩
   | setMeta f =>
     simp only [step, astep]
@@ -556,7 +556,7 @@ theorem step_abs {t : Store} {o : Ref} (h : Sep t o) (st : Stmt) :
         refine ⟨sep_setObj_sameGet h _ hget, ?_⟩
         rw [abs_setObj_sameGet h _ hget, Obj.info_set]; rfl
       | some r =>
-        simp only [snd_allocD, obj_allocD]
+        simp only [snd_allocD]
         have hg' : (t.obj o).get .graph = some r := hg
         refine ⟨sep_bind_fresh h .graph _, ?_⟩
         rw [abs_bind_fresh h .graph]
@@ -601,5 +601,721 @@ theorem exec_abs (b : List Stmt) : ∀ {t : Store} {o : Ref}, Sep t o →
     refine ⟨h3, ?_⟩
     show (exec (step t o st) o b).abs o = aexec (astep (t.abs o) st) b
     rw [h4, h2]
+
+/-! ## `copy` yields a separated object with the same observable state -/
+
+/-- observable state of a stale neuron's copy: no graphs -/
+def Abs.noGraphs (x : Abs) : Abs := { x with graph := none, igraph := none }
+
+/-- the three intermediate stores of `copyObj` and what is known about the references it hands out -/
+theorem copyOf_facts {s : Store} {x : Ref} (h : Sep s x) (stale : Bool) :
+    let ob := s.obj x
+    let cp := copyOf s x stale
+    let t := (copyObj s x stale).1
+    (∀ q, cp.nodes = some q → s.data.length ≤ q ∧ q < (s.dup ob.nodes).1.data.length ∧
+        ∃ r0, ob.nodes = some r0 ∧ t.rd q = s.rd r0) ∧
+    (∀ q, cp.conns = some q → (s.dup ob.nodes).1.data.length ≤ q ∧
+        q < ((s.dup ob.nodes).1.dup ob.conns).1.data.length ∧ ∃ r0, ob.conns = some r0 ∧ t.rd q = s.rd r0) ∧
+    (∀ q, cp.igraph = some q → stale = false ∧ ((s.dup ob.nodes).1.dup ob.conns).1.data.length ≤ q ∧
+        q < t.data.length ∧ ∃ r0, ob.igraph = some r0 ∧ t.rd q = s.rd r0) ∧
+    (∀ q, cp.graph = some q → stale = false ∧ ob.graph = some q ∧ q < s.data.length ∧ t.rd q = s.rd q) ∧
+    (cp.nodes = none ↔ ob.nodes = none) ∧ (cp.conns = none ↔ ob.conns = none) ∧
+    (stale = false → (cp.igraph = none ↔ ob.igraph = none)) ∧ (stale = false → cp.graph = ob.graph) ∧
+    ((s.dup ob.nodes).1.dup ob.conns).1.data.length ≤ t.data.length ∧ cp.info = ob.info := by
+  intro ob cp t
+  have hbn := h.bound .nodes; have hbc := h.bound .conns; have hbg := h.bound .graph; have hbi := h.bound .igraph
+  simp only [Obj.get] at hbn hbc hbg hbi
+  -- names for the intermediate stores
+  have e1 : (s.dup ob.nodes).1.data.length ≥ s.data.length := dup_len_le _ _
+  have e2 : ((s.dup ob.nodes).1.dup ob.conns).1.data.length ≥ (s.dup ob.nodes).1.data.length := dup_len_le _ _
+  have ht : t.data = (if stale then ((s.dup ob.nodes).1.dup ob.conns).1
+      else (((s.dup ob.nodes).1.dup ob.conns).1.dup ob.igraph).1).data := by
+    cases stale <;> simp [t, ob, copyObj, Store.allocObj]
+  have htrd : ∀ q, t.rd q = (if stale then ((s.dup ob.nodes).1.dup ob.conns).1
+      else (((s.dup ob.nodes).1.dup ob.conns).1.dup ob.igraph).1).rd q := by
+    intro q; unfold Store.rd; rw [ht]
+  have e3 : ((s.dup ob.nodes).1.dup ob.conns).1.data.length ≤ t.data.length := by
+    rw [ht]; cases stale
+    · exact dup_len_le _ _
+    · exact Nat.le_refl _
+  -- reading an old cell of an intermediate store in the final store
+  have rd3 : ∀ q, q < ((s.dup ob.nodes).1.dup ob.conns).1.data.length →
+      t.rd q = ((s.dup ob.nodes).1.dup ob.conns).1.rd q := by
+    intro q hq; rw [htrd]; cases stale
+    · exact dup_rd_old _ hq
+    · rfl
+  refine ⟨?_, ?_, ?_, ?_, ?_, ?_, ?_, ?_, e3, rfl⟩
+  · intro q hq
+    have hq' : (s.dup ob.nodes).2 = some q := hq
+    obtain ⟨f1, f2, r0, f3, f4⟩ := dup_some hq'
+    refine ⟨Nat.le_of_eq f1.symm, f2, r0, f3, ?_⟩
+    rw [rd3 q (Nat.lt_of_lt_of_le f2 e2), dup_rd_old _ f2, f4]
+  · intro q hq
+    have hq' : ((s.dup ob.nodes).1.dup ob.conns).2 = some q := hq
+    obtain ⟨f1, f2, r0, f3, f4⟩ := dup_some hq'
+    refine ⟨Nat.le_of_eq f1.symm, f2, r0, f3, ?_⟩
+    rw [rd3 q f2, f4, dup_rd_old _ (hbc r0 f3)]
+  · intro q hq
+    cases stale with
+    | true => simp [cp, copyOf] at hq
+    | false =>
+      have hq' : (((s.dup ob.nodes).1.dup ob.conns).1.dup ob.igraph).2 = some q := hq
+      obtain ⟨f1, f2, r0, f3, f4⟩ := dup_some hq'
+      refine ⟨rfl, Nat.le_of_eq f1.symm, by rw [ht]; exact f2, r0, f3, ?_⟩
+      rw [htrd]; simp only [Bool.false_eq_true, if_false]
+      rw [f4, dup_rd_old _ (Nat.lt_of_lt_of_le (hbi r0 f3) e1), dup_rd_old _ (hbi r0 f3)]
+  · intro q hq
+    cases stale with
+    | true => simp [cp, copyOf] at hq
+    | false =>
+      have hq' : ob.graph = some q := by simpa [cp, copyOf] using hq
+      have hlt := hbg q hq'
+      refine ⟨rfl, hq', hlt, ?_⟩
+      rw [rd3 q (Nat.lt_of_lt_of_le hlt (Nat.le_trans e1 e2)),
+        dup_rd_old _ (Nat.lt_of_lt_of_le hlt e1), dup_rd_old _ hlt]
+  · show (s.dup ob.nodes).2 = none ↔ _
+    cases ob.nodes <;> simp [Store.dup]
+  · show ((s.dup ob.nodes).1.dup ob.conns).2 = none ↔ _
+    cases ob.conns <;> simp [Store.dup]
+  · intro hs; subst hs
+    show (((s.dup ob.nodes).1.dup ob.conns).1.dup ob.igraph).2 = none ↔ _
+    cases ob.igraph <;> simp [Store.dup]
+  · intro hs; subst hs; simp [cp, copyOf, ob]
+
+theorem copy_sep {s : Store} {x : Ref} (h : Sep s x) (stale : Bool) :
+    Sep (copyObj s x stale).1 s.objs.length ∧
+    (copyObj s x stale).1.abs s.objs.length = (if stale then (s.abs x).noGraphs else s.abs x) := by
+  obtain ⟨fn, fc, fi, fg, nn, nc, ni, ng, e3, hinfo⟩ := copyOf_facts h stale
+  have e1 : (s.dup (s.obj x).nodes).1.data.length ≥ s.data.length := dup_len_le _ _
+  have e2 : ((s.dup (s.obj x).nodes).1.dup (s.obj x).conns).1.data.length ≥
+      (s.dup (s.obj x).nodes).1.data.length := dup_len_le _ _
+  constructor
+  · refine ⟨by rw [copyObj_objs_length]; exact Nat.lt_succ_self _, ?_, ?_⟩
+    · intro a r hr
+      rw [copyObj_obj] at hr
+      cases a
+      · have := fn r hr; omega
+      · have := fc r hr; omega
+      · have := fg r hr; omega
+      · have := fi r hr; omega
+    · intro a a' r hr hr'
+      rw [copyObj_obj] at hr hr'
+      cases a <;> cases a' <;> first | rfl | (exfalso; simp only [Obj.get] at hr hr')
+      all_goals
+        first
+        | (have h1 := fn r hr; have h2 := fc r hr'; omega)
+        | (have h1 := fn r hr; have h2 := fg r hr'; omega)
+        | (have h1 := fn r hr; have h2 := fi r hr'; omega)
+        | (have h1 := fc r hr; have h2 := fn r hr'; omega)
+        | (have h1 := fc r hr; have h2 := fg r hr'; omega)
+        | (have h1 := fc r hr; have h2 := fi r hr'; omega)
+        | (have h1 := fg r hr; have h2 := fn r hr'; omega)
+        | (have h1 := fg r hr; have h2 := fc r hr'; omega)
+        | (have h1 := fg r hr; have h2 := fi r hr'; omega)
+        | (have h1 := fi r hr; have h2 := fn r hr'; omega)
+        | (have h1 := fi r hr; have h2 := fc r hr'; omega)
+        | (have h1 := fi r hr; have h2 := fg r hr'; omega)
+  · apply Abs.ext'
+    · intro a
+      rw [abs_get, copyObj_obj]
+      have habs : ∀ a, (s.abs x).get a = ((s.obj x).get a).map s.rd := abs_get s x
+      cases a
+      · -- nodes
+        have : (if stale then (s.abs x).noGraphs else s.abs x).get .nodes = (s.abs x).get .nodes := by
+          cases stale <;> rfl
+        rw [this, habs]
+        simp only [Obj.get]
+        cases hq : (copyOf s x stale).nodes with
+        | none => rw [nn.mp hq]; rfl
+        | some q => obtain ⟨_, _, r0, h1, h2⟩ := fn q hq; rw [h1]; simp [h2]
+      · have : (if stale then (s.abs x).noGraphs else s.abs x).get .conns = (s.abs x).get .conns := by
+          cases stale <;> rfl
+        rw [this, habs]
+        simp only [Obj.get]
+        cases hq : (copyOf s x stale).conns with
+        | none => rw [nc.mp hq]; rfl
+        | some q => obtain ⟨_, _, r0, h1, h2⟩ := fc q hq; rw [h1]; simp [h2]
+      · cases stale with
+        | true => simp [copyOf, Obj.get, Abs.noGraphs, Abs.get]
+        | false =>
+          simp only [Bool.false_eq_true, if_false]
+          rw [habs]; simp only [Obj.get]
+          cases hq : (copyOf s x false).graph with
+          | none => rw [← ng rfl, hq]; rfl
+          | some q => obtain ⟨_, h1, _, h2⟩ := fg q hq; rw [h1]; simp [h2]
+      · cases stale with
+        | true => simp [copyOf, Obj.get, Abs.noGraphs, Abs.get]
+        | false =>
+          simp only [Bool.false_eq_true, if_false]
+          rw [habs]; simp only [Obj.get]
+          cases hq : (copyOf s x false).igraph with
+          | none => rw [(ni rfl).mp hq]; rfl
+          | some q => obtain ⟨_, _, _, r0, h1, h2⟩ := fi q hq; rw [h1]; simp [h2]
+    · rw [abs_info, copyObj_obj, hinfo]
+      cases stale <;> rfl
+
+/-! ## abstract result of a call -/
+
+theorem call_abs_inplace (b : List Stmt) {s : Store} {x : Ref} (h : Sep s x) (stale : Bool) :
+    Sep (call b s x true stale).1 x ∧ (call b s x true stale).1.abs (call b s x true stale).2 = aexec (s.abs x) b := by
+  simp only [call, if_true]
+  exact exec_abs b h
+
+theorem call_abs_copy (b : List Stmt) {s : Store} {x : Ref} (h : Sep s x) (stale : Bool) :
+    Sep (call b s x false stale).1 (call b s x false stale).2 ∧
+    (call b s x false stale).1.abs (call b s x false stale).2 =
+      aexec (if stale then (s.abs x).noGraphs else s.abs x) b := by
+  simp only [call, Bool.false_eq_true, if_false]
+  rw [copyObj_snd]
+  obtain ⟨h1, h2⟩ := copy_sep h stale
+  obtain ⟨h3, h4⟩ := exec_abs b h1
+  exact ⟨h3, by rw [h4, h2]⟩
+
+/-- cells that survive unchanged keep a separated object separated and its observable state the same -/
+theorem Sep.of_ext {s t : Store} (he : Ext s t) {o : Ref} (h : Sep s o) : Sep t o ∧ t.abs o = s.abs o := by
+  have ho := he.obj h.valid
+  refine ⟨⟨Nat.lt_of_lt_of_le h.valid he.olen, ?_, ?_⟩, ?_⟩
+  · intro a r hr; rw [ho] at hr; exact Nat.lt_of_lt_of_le (h.bound a r hr) he.dlen
+  · intro a a' r; rw [ho]; exact h.inj a a' r
+  · apply Abs.ext'
+    · intro a; rw [abs_get, abs_get, ho]
+      cases hg : (s.obj o).get a with
+      | none => rfl
+      | some r => simp [he.rd (h.bound a r hg)]
+    · rw [abs_info, abs_info, ho]
+
+/-! ## locality of an in-place run: only the receiver's own cells (and fresh ones) change -/
+
+/-- `Loc s t o`: between `s` and `t` only the object cell `o`, the data cells `o` was bound to in `s`, and
+freshly allocated cells may differ; `o`'s bindings in `t` are old bindings or fresh cells. -/
+structure Loc (s t : Store) (o : Ref) : Prop where
+  dlen : s.data.length ≤ t.data.length
+  dget : ∀ r, r < s.data.length → r ∉ (s.obj o).refs → t.data[r]? = s.data[r]?
+  olen : t.objs.length = s.objs.length
+  oget : ∀ o', o' ≠ o → t.objs[o']? = s.objs[o']?
+  lsts : t.lists = s.lists
+  refs : ∀ r, r ∈ (t.obj o).refs → r ∈ (s.obj o).refs ∨ s.data.length ≤ r
+
+theorem Loc.refl (s : Store) (o : Ref) : Loc s s o :=
+  ⟨Nat.le_refl _, fun _ _ _ => rfl, rfl, fun _ _ => rfl, rfl, fun _ h => .inl h⟩
+
+theorem Loc.trans {s t u : Store} {o : Ref} (h1 : Loc s t o) (h2 : Loc t u o) : Loc s u o where
+  dlen := Nat.le_trans h1.dlen h2.dlen
+  dget r hr hn := by
+    rw [h2.dget r (Nat.lt_of_lt_of_le hr h1.dlen) ?_, h1.dget r hr hn]
+    intro hm
+    rcases h1.refs r hm with h | h
+    · exact hn h
+    · exact absurd hr (Nat.not_lt.mpr h)
+  olen := h2.olen.trans h1.olen
+  oget o' ho := by rw [h2.oget o' ho, h1.oget o' ho]
+  lsts := h2.lsts.trans h1.lsts
+  refs r hr := by
+    rcases h2.refs r hr with h | h
+    · exact h1.refs r h
+    · exact .inr (Nat.le_trans h1.dlen h)
+
+theorem mem_refs_set {ob : Obj} {a : Attr} {v : Option Ref} {r : Ref} (h : r ∈ (ob.set a v).refs) :
+    r ∈ ob.refs ∨ v = some r := by
+  rw [Obj.mem_refs] at h
+  obtain ⟨a', ha'⟩ := h
+  rw [Obj.get_set] at ha'
+  split at ha'
+  · exact .inr ha'
+  · exact .inl (Obj.mem_refs.mpr ⟨a', ha'⟩)
+
+theorem step_loc {t : Store} {o : Ref} (ho : o < t.objs.length) (st : Stmt) : Loc t (step t o st) o := by
+  have setObjLoc : ∀ (u : Store) (ob : Obj), u.objs.length = t.objs.length → u.lists = t.lists →
+      t.data.length ≤ u.data.length → (∀ r, r < t.data.length → u.data[r]? = t.data[r]?) →
+      (∀ o', o' ≠ o → u.objs[o']? = t.objs[o']?) →
+      (∀ r, r ∈ ob.refs → r ∈ (t.obj o).refs ∨ t.data.length ≤ r) → Loc t (u.setObj o ob) o := by
+    intro u ob hl hls hd hdg hog hr
+    refine ⟨hd, fun r hr' _ => hdg r hr', by simp [hl], ?_, hls, ?_⟩
+    · intro o' ho'
+      simp only [Store.setObj]
+      rw [List.getElem?_set_ne (Ne.symm ho')]; exact hog o' ho'
+    · intro r hr'
+      rw [obj_setObj_same (by rw [hl]; exact ho)] at hr'
+      exact hr r hr'
+  cases st with
+  | wr a f =>
+    simp only [step]
+    split
+    · exact Loc.refl _ _
+    · rename_i r hr
+      refine ⟨by simp, ?_, rfl, fun _ _ => rfl, rfl, fun q hq => .inl hq⟩
+      intro q _ hq
+      have : r ≠ q := by
+        intro e; subst e; exact hq (Obj.mem_refs.mpr ⟨a, hr⟩)
+      simp [Store.wr, List.getElem?_set_ne this]
+  | rebind a f =>
+    simp only [step]
+    refine setObjLoc (t.allocD (f (t.abs o))).1 _ rfl rfl (by simp) ?_ (fun _ _ => rfl) ?_
+    · intro r hr; simp [Store.allocD, List.getElem?_append_left hr]
+    · intro r hr
+      rcases mem_refs_set hr with h | h
+      · exact .inl h
+      · simp at h; exact .inr (Nat.le_of_eq h)
+  | setMeta f =>
+    simp only [step]
+    apply setObjLoc _ _ rfl rfl (Nat.le_refl _) (fun _ _ => rfl) (fun _ _ => rfl)
+    intro r hr; exact .inl hr
+  | thaw =>
+    simp only [step]
+    split
+    · split
+      · apply setObjLoc _ _ rfl rfl (Nat.le_refl _) (fun _ _ => rfl) (fun _ _ => rfl)
+        intro r hr
+        rcases mem_refs_set hr with h | h
+        · exact .inl h
+        · cases h
+      · rename_i r0 _
+        refine setObjLoc (t.allocD (t.rd r0)).1 _ rfl rfl (by simp) ?_ (fun _ _ => rfl) ?_
+        · intro r hr; simp [Store.allocD, List.getElem?_append_left hr]
+        · intro r hr
+          rcases mem_refs_set hr with h | h
+          · exact .inl h
+          · simp at h; exact .inr (Nat.le_of_eq h)
+    · exact Loc.refl _ _
+  | clear a =>
+    simp only [step]
+    apply setObjLoc _ _ rfl rfl (Nat.le_refl _) (fun _ _ => rfl) (fun _ _ => rfl)
+    intro r hr
+    rcases mem_refs_set hr with h | h
+    · exact .inl h
+    · cases h
+
+theorem exec_loc (b : List Stmt) : ∀ {t : Store} {o : Ref}, o < t.objs.length → Loc t (exec t o b) o := by
+  induction b with
+  | nil => intro t o _; exact Loc.refl _ _
+  | cons st b ih =>
+    intro t o ho
+    have h1 := step_loc ho st
+    have ho' : o < (step t o st).objs.length := by rw [h1.olen]; exact ho
+    exact h1.trans (ih ho')
+
+/-! ## mapping over a list -/
+
+theorem mapCalls_copy (b : List Stmt) (hw : writesOwn true b = true) : ∀ (xs : List Ref) (s : Store),
+    Ext s (mapCalls b s xs false).1 ∧ (mapCalls b s xs false).2.length = xs.length ∧
+    (∀ y ∈ (mapCalls b s xs false).2, s.objs.length ≤ y) ∧
+    ∀ (i : Nat) (x : Nat), xs[i]? = some x → Sep s x → ∃ y, (mapCalls b s xs false).2[i]? = some y ∧
+      Sep (mapCalls b s xs false).1 y ∧ (mapCalls b s xs false).1.abs y = aexec (s.abs x) b := by
+  intro xs
+  induction xs with
+  | nil => intro s; exact ⟨Ext.refl s, rfl, by simp [mapCalls], by simp⟩
+  | cons x xs ih =>
+    intro s
+    simp only [mapCalls]
+    have e1 : Ext s (call b s x false).1 := call_ext b s x false hw
+    obtain ⟨e2, l2, f2, a2⟩ := ih (call b s x false).1
+    refine ⟨e1.trans e2, by simp [l2], ?_, ?_⟩
+    · intro y hy
+      rcases List.mem_cons.mp hy with h | h
+      · rw [h, call_snd_false]; exact Nat.le_refl _
+      · exact Nat.le_trans e1.olen (f2 y h)
+    · intro i x' hx' hs
+      cases i with
+      | zero =>
+        simp only [List.getElem?_cons_zero, Option.some.injEq] at hx'
+        subst hx'
+        obtain ⟨h1, h2⟩ := call_abs_copy b hs false
+        obtain ⟨h3, h4⟩ := Sep.of_ext e2 h1
+        refine ⟨_, by simp, h3, ?_⟩
+        rw [h4, h2]; rfl
+      | succ i =>
+        simp only [List.getElem?_cons_succ] at hx' ⊢
+        obtain ⟨h1, h2⟩ := Sep.of_ext e1 hs
+        obtain ⟨y, hy, h3, h4⟩ := a2 i x' hx' h1
+        exact ⟨y, hy, h3, by rw [h4, h2]⟩
+
+theorem mapCalls_inplace_snd (b : List Stmt) : ∀ (xs : List Ref) (s : Store), (mapCalls b s xs true).2 = xs := by
+  intro xs; induction xs with
+  | nil => intro s; rfl
+  | cons x xs ih => intro s; simp [mapCalls, call, ih]
+
+theorem mapCalls_inplace_lists (b : List Stmt) : ∀ (xs : List Ref) (s : Store), (∀ x ∈ xs, x < s.objs.length) →
+    (mapCalls b s xs true).1.lists = s.lists ∧ (mapCalls b s xs true).1.objs.length = s.objs.length := by
+  intro xs; induction xs with
+  | nil => intro s _; exact ⟨rfl, rfl⟩
+  | cons x xs ih =>
+    intro s hv
+    simp only [mapCalls, call, if_true]
+    have hl := exec_loc b (hv x (List.mem_cons_self ..))
+    obtain ⟨h1, h2⟩ := ih (exec s x b) (fun x' hx' => by rw [hl.olen]; exact hv x' (List.mem_cons_of_mem _ hx'))
+    exact ⟨h1.trans hl.lsts, h2.trans hl.olen⟩
+
+/-- an object whose cells are disjoint from the receiver's is not affected by an in-place run -/
+theorem Loc.other {s t : Store} {o z : Ref} (hl : Loc s t o) (hz : Sep s z) (hne : z ≠ o)
+    (hd : ∀ r, r ∈ (s.obj z).refs → r ∉ (s.obj o).refs) :
+    Sep t z ∧ t.abs z = s.abs z ∧ t.obj z = s.obj z := by
+  have ho : t.obj z = s.obj z := by unfold Store.obj; rw [hl.oget z hne]
+  refine ⟨⟨by rw [hl.olen]; exact hz.valid, ?_, ?_⟩, ?_, ho⟩
+  · intro a r hr; rw [ho] at hr; exact Nat.lt_of_lt_of_le (hz.bound a r hr) hl.dlen
+  · intro a a' r; rw [ho]; exact hz.inj a a' r
+  · apply Abs.ext'
+    · intro a; rw [abs_get, abs_get, ho]
+      cases hg : (s.obj z).get a with
+      | none => rfl
+      | some r =>
+        have hr := hz.bound a r hg
+        have : t.rd r = s.rd r := by
+          unfold Store.rd; rw [hl.dget r hr (hd r (Obj.mem_refs.mpr ⟨a, hg⟩))]
+        simp [this]
+    · rw [abs_info, abs_info, ho]
+
+theorem mapCalls_inplace_other (b : List Stmt) : ∀ (xs : List Ref) (s : Store) (z : Ref), Sep s z →
+    (∀ x ∈ xs, x < s.objs.length ∧ z ≠ x ∧ ∀ r, r ∈ (s.obj z).refs → r ∉ (s.obj x).refs) →
+    Sep (mapCalls b s xs true).1 z ∧ (mapCalls b s xs true).1.abs z = s.abs z ∧
+      (mapCalls b s xs true).1.obj z = s.obj z := by
+  intro xs; induction xs with
+  | nil => intro s z hz _; exact ⟨hz, rfl, rfl⟩
+  | cons x xs ih =>
+    intro s z hz hx
+    simp only [mapCalls, call, if_true]
+    obtain ⟨hxv, hxne, hxd⟩ := hx x (List.mem_cons_self ..)
+    have hl := exec_loc b hxv
+    obtain ⟨h1, h2, h3⟩ := hl.other hz hxne hxd
+    have := ih (exec s x b) z h1 (by
+      intro x' hx'
+      obtain ⟨hv', hne', hd'⟩ := hx x' (List.mem_cons_of_mem _ hx')
+      refine ⟨by rw [hl.olen]; exact hv', hne', ?_⟩
+      intro r hr hr'
+      rw [h3] at hr
+      have hrlt : r < s.data.length := by
+        obtain ⟨a, ha⟩ := Obj.mem_refs.mp hr; exact hz.bound a r ha
+      by_cases e : x' = x
+      · subst e
+        rcases hl.refs r hr' with h | h
+        · exact hxd r hr h
+        · exact absurd hrlt (Nat.not_lt.mpr h)
+      · have : (exec s x b).obj x' = s.obj x' := by unfold Store.obj; rw [hl.oget x' e]
+        rw [this] at hr'
+        exact hd' r hr hr')
+    obtain ⟨g1, g2, g3⟩ := this
+    exact ⟨g1, g2.trans h2, g3.trans h3⟩
+
+/-- two distinct objects sharing no container -/
+def Disj (s : Store) (x x' : Ref) : Prop := x ≠ x' ∧ ∀ r, r ∈ (s.obj x).refs → r ∉ (s.obj x').refs
+
+theorem mapCalls_inplace_abs (b : List Stmt) : ∀ (xs : List Ref) (s : Store), (∀ x ∈ xs, Sep s x) →
+    xs.Pairwise (Disj s) →
+    ∀ x ∈ xs, Sep (mapCalls b s xs true).1 x ∧ (mapCalls b s xs true).1.abs x = aexec (s.abs x) b := by
+  intro xs; induction xs with
+  | nil => intro s _ _ x hx; cases hx
+  | cons x xs ih =>
+    intro s hs hp
+    simp only [mapCalls, call, if_true]
+    have hsx := hs x (List.mem_cons_self ..)
+    have hl := exec_loc b hsx.valid
+    obtain ⟨hpx, hpt⟩ := List.pairwise_cons.mp hp
+    obtain ⟨e1, e2⟩ := exec_abs b hsx
+    -- the tail members are untouched by the run on the head
+    have htail : ∀ x' ∈ xs, Sep (exec s x b) x' ∧ (exec s x b).abs x' = s.abs x' ∧ (exec s x b).obj x' = s.obj x' := by
+      intro x' hx'
+      have hd := hpx x' hx'
+      exact hl.other (hs x' (List.mem_cons_of_mem _ hx')) (Ne.symm hd.1)
+        (fun r hr hr' => hd.2 r hr' hr)
+    have hpt' : xs.Pairwise (Disj (exec s x b)) := by
+      refine hpt.imp_of_mem ?_
+      intro a c ha hc hd
+      refine ⟨hd.1, ?_⟩
+      rw [(htail a ha).2.2, (htail c hc).2.2]; exact hd.2
+    intro z hz
+    rcases List.mem_cons.mp hz with h | h
+    · subst h
+      have := mapCalls_inplace_other b xs (exec s z b) z e1 (by
+        intro x' hx'
+        have hd := hpx x' hx'
+        refine ⟨(htail x' hx').1.valid, hd.1, ?_⟩
+        intro r hr hr'
+        rw [(htail x' hx').2.2] at hr'
+        rcases hl.refs r hr with h | h
+        · exact hd.2 r h hr'
+        · obtain ⟨a, ha⟩ := Obj.mem_refs.mp hr'
+          exact absurd ((hs x' (List.mem_cons_of_mem _ hx')).bound a r ha) (Nat.not_lt.mpr h))
+      exact ⟨this.1, this.2.1.trans e2⟩
+    · obtain ⟨g1, g2⟩ := ih (exec s x b) (fun x' hx' => (htail x' hx').1) hpt' z h
+      exact ⟨g1, by rw [g2, (htail z h).2.1]⟩
+
+/-! ## frames as seen from the input -/
+
+theorem Ext.frame {s t : Store} (h : Ext s t) {x : Ref} (hx : Sep s x) :
+    t.objs[x]? = s.objs[x]? ∧ (∀ r, r ∈ (s.obj x).refs → t.data[r]? = s.data[r]?) ∧ t.abs x = s.abs x := by
+  refine ⟨h.oget x hx.valid, ?_, (Sep.of_ext h hx).2⟩
+  intro r hr
+  obtain ⟨a, ha⟩ := Obj.mem_refs.mp hr
+  exact h.dget r (hx.bound a r ha)
+
+theorem take_eq_iff {α} (s t : List α) (hl : s.length ≤ t.length) :
+    t.take s.length = s ↔ ∀ r, r < s.length → t[r]? = s[r]? := by
+  constructor
+  · intro h r hr
+    rw [← List.getElem?_take_of_lt hr, h]
+  · intro h
+    apply List.ext_getElem?
+    intro i
+    by_cases hi : i < s.length
+    · rw [List.getElem?_take_of_lt hi, h i hi]
+    · have h1 : (t.take s.length)[i]? = none := by
+        apply List.getElem?_eq_none; simp; omega
+      have h2 : s[i]? = none := List.getElem?_eq_none (by omega)
+      rw [h1, h2]
+
+theorem extendsB_iff (s t : Store) : extendsB s t = true ↔ Ext s t := by
+  unfold extendsB
+  simp only [Bool.and_eq_true, decide_eq_true_eq, beq_iff_eq]
+  constructor
+  · rintro ⟨⟨⟨d1, d2⟩, o1, o2⟩, l1, l2⟩
+    exact ⟨d1, (take_eq_iff _ _ d1).mp d2, o1, (take_eq_iff _ _ o1).mp o2, l1, (take_eq_iff _ _ l1).mp l2⟩
+  · intro h
+    exact ⟨⟨⟨h.dlen, (take_eq_iff _ _ h.dlen).mpr h.dget⟩, h.olen, (take_eq_iff _ _ h.olen).mpr h.oget⟩,
+      h.llen, (take_eq_iff _ _ h.llen).mpr h.lget⟩
+
+theorem frameB_iff (s t : Store) (x : Ref) :
+    frameB s t x = true ↔ (t.objs[x]? = s.objs[x]? ∧ ∀ r, r ∈ (s.obj x).refs → t.data[r]? = s.data[r]?) := by
+  unfold frameB
+  simp [List.all_eq_true]
+
+/-! ## writes before the copy -/
+
+theorem exec_bump {x r : Ref} : ∀ (n : Nat) (s : Store), (s.obj x).nodes = some r → r < s.data.length →
+    (exec s x (List.replicate n (.wr .nodes bump))).rd r = s.rd r + n ∧
+    (exec s x (List.replicate n (.wr .nodes bump))).objs = s.objs ∧
+    (exec s x (List.replicate n (.wr .nodes bump))).data.length = s.data.length := by
+  intro n; induction n with
+  | zero => intro s _ _; simp [exec]
+  | succ n ih =>
+    intro s hn hr
+    have hg : (s.obj x).get .nodes = some r := hn
+    have hstep : exec s x (List.replicate (n + 1) (.wr .nodes bump)) =
+        exec (s.wr r (bump (s.abs x))) x (List.replicate n (.wr .nodes bump)) := by
+      simp only [List.replicate_succ, exec, List.foldl_cons]
+      rw [step_wr_some bump hg]
+    rw [hstep]
+    obtain ⟨h1, h2, h3⟩ := ih (s.wr r (bump (s.abs x))) (by simpa using hn) (by simpa using hr)
+    refine ⟨?_, by rw [h2]; rfl, by rw [h3]; simp⟩
+    rw [h1, rd_wr_same hr]
+    have : bump (s.abs x) = s.rd r + 1 := by
+      simp [bump, Store.abs, Store.absObj, hn]
+    rw [this]; omega
+
+/-! ## list operators -/
+
+theorem allocLst_snd (s : Store) (xs : List Ref) : (s.allocLst xs).2 = s.lists.length := rfl
+
+theorem lst_allocLst_new (s : Store) (xs : List Ref) : (s.allocLst xs).1.lst s.lists.length = xs := by
+  simp [Store.allocLst, Store.lst]
+
+theorem lst_setLst_same {s : Store} {l : Ref} (hl : l < s.lists.length) (xs : List Ref) :
+    (s.setLst l xs).lst l = xs := by
+  simp [Store.setLst, Store.lst, hl]
+
+/-! ## event traces of the source text, run in the heap model -/
+
+theorem Inv.weaken {s0 t u : Store} {y : Ref} {v : Bool} (h : Inv t u y v) (he : Ext s0 t) : Inv s0 u y v where
+  ext := he.trans h.ext
+  fresh := Nat.le_trans he.olen h.fresh
+  flag := h.flag
+  own a r hr := by
+    rcases h.own a r hr with h' | h'
+    · exact .inl h'
+    · exact .inr (Nat.le_trans he.dlen h')
+
+theorem runTrace_afterGuard (f : Abs → Int) (s : Store) (x : Ref) : ∀ (t : List Ev) (st : Store × Ref) (v : Bool),
+    Inv s st.1 st.2 v → st.2 < st.1.objs.length → t.contains .writeIn = false →
+    Ext s (t.foldl (runEv f x false) st).1 := by
+  intro t; induction t with
+  | nil => intro st v h _ _; exact h.ext
+  | cons e t ih =>
+    intro st v h hy hc
+    have hc' : t.contains .writeIn = false := by
+      simp only [List.contains_cons, Bool.or_eq_false_iff] at hc; exact hc.2
+    simp only [List.foldl_cons]
+    cases e with
+    | guard =>
+      simp only [runEv, Bool.false_eq_true, if_false]
+      refine ih _ true ?_ ?_ hc'
+      · rw [copyObj_snd]; exact (copyObj_inv st.1 st.2 false).weaken h.ext
+      · rw [copyObj_snd, copyObj_objs_length]; exact Nat.lt_succ_self _
+    | write =>
+      simp only [runEv]
+      obtain ⟨h1, h2⟩ := step_inv hy h (.wr .nodes f) (by simp [Stmt.needsOwnGraph])
+      exact ih _ _ h1 h2 hc'
+    | writeIn => simp at hc
+    | delegate => exact ih st v h hy hc'
+    | branch => exact ih st v h hy hc'
+
+theorem runTrace_ext (f : Abs → Int) (s : Store) (x : Ref) : ∀ (t : List Ev),
+    noWriteBeforeGuard t = true → t.contains .writeIn = false → Ext s (runTrace f t s x false).1 := by
+  unfold runTrace
+  intro t; induction t with
+  | nil => intro _ _; exact Ext.refl s
+  | cons e t ih =>
+    intro h1 hc
+    have hc' : t.contains .writeIn = false := by
+      simp only [List.contains_cons, Bool.or_eq_false_iff] at hc; exact hc.2
+    simp only [List.foldl_cons]
+    cases e with
+    | guard =>
+      simp only [runEv, Bool.false_eq_true, if_false]
+      refine runTrace_afterGuard f s x t _ true ?_ ?_ hc'
+      · rw [copyObj_snd]; exact copyObj_inv s x false
+      · rw [copyObj_snd, copyObj_objs_length]; exact Nat.lt_succ_self _
+    | write => simp [noWriteBeforeGuard] at h1
+    | writeIn => simp at hc
+    | delegate => exact ih (by simpa [noWriteBeforeGuard] using h1) hc'
+    | branch => exact ih (by simpa [noWriteBeforeGuard] using h1) hc'
+
+/-- a `bump` write through any object never decreases any cell, and keeps it allocated -/
+theorem step_bump_mono (u : Store) (o r : Ref) (hr : r < u.data.length) :
+    r < (step u o (.wr .nodes bump)).data.length ∧ u.rd r ≤ (step u o (.wr .nodes bump)).rd r := by
+  cases hg : (u.obj o).get .nodes with
+  | none => rw [step_wr_none bump hg]; exact ⟨hr, Int.le_refl _⟩
+  | some q =>
+    rw [step_wr_some bump hg]
+    refine ⟨by simpa using hr, ?_⟩
+    by_cases e : q = r
+    · subst e
+      rw [rd_wr_same hr]
+      have hn : (u.obj o).nodes = some q := hg
+      simp [bump, Store.abs, Store.absObj, hn]; omega
+    · rw [rd_wr_ne e]; exact Int.le_refl _
+
+theorem runEv_mono (x r : Ref) (st : Store × Ref) (e : Ev) (hr : r < st.1.data.length) :
+    r < (runEv bump x false st e).1.data.length ∧ st.1.rd r ≤ (runEv bump x false st e).1.rd r := by
+  cases e with
+  | guard =>
+    simp only [runEv, Bool.false_eq_true, if_false]
+    have he := copyObj_ext st.1 st.2 false
+    exact ⟨Nat.lt_of_lt_of_le hr he.dlen, by rw [he.rd hr]; exact Int.le_refl _⟩
+  | write => exact step_bump_mono st.1 st.2 r hr
+  | writeIn => exact step_bump_mono st.1 x r hr
+  | delegate => exact ⟨hr, Int.le_refl _⟩
+  | branch => exact ⟨hr, Int.le_refl _⟩
+
+theorem runTrace_mono (x r : Ref) : ∀ (t : List Ev) (st : Store × Ref), r < st.1.data.length →
+    st.1.rd r ≤ (t.foldl (runEv bump x false) st).1.rd r := by
+  intro t; induction t with
+  | nil => intro st _; exact Int.le_refl _
+  | cons e t ih =>
+    intro st hr
+    obtain ⟨h1, h2⟩ := runEv_mono x r st e hr
+    exact Int.le_trans h2 (ih _ h1)
+
+theorem step_bump_own {u : Store} {o r : Ref} (hn : (u.obj o).nodes = some r) (hr : r < u.data.length) :
+    (step u o (.wr .nodes bump)).rd r = u.rd r + 1 ∧ (step u o (.wr .nodes bump)).objs = u.objs ∧
+      r < (step u o (.wr .nodes bump)).data.length := by
+  have hg : (u.obj o).get .nodes = some r := hn
+  rw [step_wr_some bump hg]
+  refine ⟨?_, rfl, by simpa using hr⟩
+  rw [rd_wr_same hr]; simp [bump, Store.abs, Store.absObj, hn]
+
+/-- **converse of the premise**: a write before the copy guard does change the input's node table. -/
+theorem runTrace_violation (s : Store) (x r : Ref) (hn : (s.obj x).nodes = some r) (hr : r < s.data.length) :
+    ∀ (t : List Ev), noWriteBeforeGuard t = false → s.rd r < (runTrace bump t s x false).1.rd r := by
+  unfold runTrace
+  suffices h : ∀ (t : List Ev) (u : Store), u.objs = s.objs → r < u.data.length →
+      noWriteBeforeGuard t = false → u.rd r < (t.foldl (runEv bump x false) (u, x)).1.rd r from
+    fun t ht => h t s rfl hr ht
+  intro t; induction t with
+  | nil => intro u _ _ h; simp [noWriteBeforeGuard] at h
+  | cons e t ih =>
+    intro u hu hru h
+    have hnu : (u.obj x).nodes = some r := by unfold Store.obj; rw [hu]; exact hn
+    simp only [List.foldl_cons]
+    cases e with
+    | guard => simp [noWriteBeforeGuard] at h
+    | write =>
+      obtain ⟨h1, _, h3⟩ := step_bump_own hnu hru
+      have := runTrace_mono x r t (runEv bump x false (u, x) .write) h3
+      simp only [runEv] at this ⊢
+      omega
+    | writeIn =>
+      obtain ⟨h1, h2, h3⟩ := step_bump_own hnu hru
+      have := ih (step u x (.wr .nodes bump)) (h2.trans hu) h3 (by simpa [noWriteBeforeGuard] using h)
+      simp only [runEv] at this ⊢
+      omega
+    | delegate => exact ih u hu hru (by simpa [noWriteBeforeGuard] using h)
+    | branch => exact ih u hu hru (by simpa [noWriteBeforeGuard] using h)
+
+/-! ## list cells are never touched by neuron-level code -/
+
+theorem step_lists (t : Store) (o : Ref) (st : Stmt) : (step t o st).lists = t.lists := by
+  cases st with
+  | wr a f => simp only [step]; split <;> rfl
+  | rebind a f => rfl
+  | setMeta f => rfl
+  | thaw =>
+    simp only [step]
+    split
+    · split <;> rfl
+    · rfl
+  | clear a => rfl
+
+theorem exec_lists (b : List Stmt) : ∀ (t : Store) (o : Ref), (exec t o b).lists = t.lists := by
+  induction b with
+  | nil => intro t o; rfl
+  | cons st b ih => intro t o; exact (ih (step t o st) o).trans (step_lists t o st)
+
+theorem copyObj_lists (s : Store) (x : Ref) (stale : Bool) : (copyObj s x stale).1.lists = s.lists := by
+  cases stale <;> simp [copyObj, Store.allocObj]
+
+theorem call_lists (b : List Stmt) (s : Store) (x : Ref) (ip stale : Bool) : (call b s x ip stale).1.lists = s.lists := by
+  cases ip
+  · simp only [call, Bool.false_eq_true, if_false]; rw [exec_lists, copyObj_lists]
+  · simp only [call, if_true]; rw [exec_lists]
+
+theorem mapCalls_lists (b : List Stmt) (ip : Bool) : ∀ (xs : List Ref) (s : Store), (mapCalls b s xs ip).1.lists = s.lists := by
+  intro xs; induction xs with
+  | nil => intro s; rfl
+  | cons x xs ih => intro s; simp only [mapCalls]; rw [ih, call_lists]
+
+/-! ## `@lock_neuron` -/
+
+theorem bumpLock_objs_ne (s : Store) (x : Ref) (up : Bool) {o : Ref} (h : x ≠ o) :
+    (s.bumpLock x up).objs[o]? = s.objs[o]? := by
+  simp [Store.bumpLock, Store.setObj, List.getElem?_set_ne h]
+
+theorem bumpLock_obj_same (s : Store) {x : Ref} (up : Bool) (hx : x < s.objs.length) :
+    (s.bumpLock x up).obj x =
+      { s.obj x with lock := if up then (s.obj x).lock + 1 else (s.obj x).lock - 1 } := by
+  unfold Store.bumpLock; rw [obj_setObj_same hx]
+
+theorem callLocked_ext (b : List Stmt) (s : Store) (x : Ref) (hx : x < s.objs.length)
+    (hw : writesOwn true b = true) : Ext s (callLocked b s x false).1 := by
+  show Ext s ((call b (s.bumpLock x true) x false).1.bumpLock x false)
+  have he := call_ext b (s.bumpLock x true) x false hw
+  have hx1 : x < (s.bumpLock x true).objs.length := by simpa [Store.bumpLock] using hx
+  have hobj : (call b (s.bumpLock x true) x false).1.obj x = (s.bumpLock x true).obj x := he.obj hx1
+  rw [bumpLock_obj_same s true hx] at hobj
+  have hlen : (s.bumpLock x true).objs.length = s.objs.length := by simp [Store.bumpLock]
+  have hdata : (s.bumpLock x true).data = s.data := rfl
+  have hlists : (s.bumpLock x true).lists = s.lists := rfl
+  generalize (call b (s.bumpLock x true) x false).1 = T at he hobj ⊢
+  have hx2 : x < T.objs.length := Nat.lt_of_lt_of_le hx1 he.olen
+  refine ⟨?_, ?_, ?_, ?_, ?_, ?_⟩
+  · show s.data.length ≤ T.data.length
+    rw [← hdata]; exact he.dlen
+  · intro r hr
+    show T.data[r]? = s.data[r]?
+    rw [← hdata] at hr ⊢; exact he.dget r hr
+  · show s.objs.length ≤ (T.bumpLock x false).objs.length
+    simp only [Store.bumpLock, objs_length_setObj]; rw [← hlen]; exact he.olen
+  · intro o ho
+    by_cases e : x = o
+    · subst e
+      have h1 : (T.bumpLock x false).objs[x]? = some ((T.bumpLock x false).obj x) := by
+        have : x < (T.bumpLock x false).objs.length := by simpa [Store.bumpLock] using hx2
+        simp [Store.obj, this]
+      have h2 : s.objs[x]? = some (s.obj x) := by simp [Store.obj, hx]
+      rw [h1, h2, bumpLock_obj_same T false hx2, hobj]
+      cases s.obj x; simp
+    · rw [bumpLock_objs_ne T x false e, he.oget o (by rw [hlen]; exact ho), bumpLock_objs_ne s x true e]
+  · show s.lists.length ≤ T.lists.length
+    rw [← hlists]; exact he.llen
+  · intro l hl
+    show T.lists[l]? = s.lists[l]?
+    rw [← hlists] at hl ⊢; exact he.lget l hl
 
 end Navis.Heap
